@@ -503,6 +503,13 @@ class ValueMapping:
             if i == 0:
                 lo = cimtype.minvalue
             else:
+                if valuemap_list[i - 1].endswith('..'):
+                    raise ModelError(
+                        _format("The value-mapped {0} has a ValueMap entry "
+                                "{1!A} whose open low end cannot be resolved "
+                                "because the previous entry {2!A} has no high "
+                                "end", self._element_str(), valuemap_str,
+                                valuemap_list[i - 1]))
                 _, previous_hi, _ = self._values_tuple(
                     i - 1, valuemap_list, values_list, cimtype)
                 lo = previous_hi + 1
@@ -514,6 +521,13 @@ class ValueMapping:
             if i == len(valuemap_list) - 1:
                 hi = cimtype.maxvalue
             else:
+                if valuemap_list[i + 1].startswith('..'):
+                    raise ModelError(
+                        _format("The value-mapped {0} has a ValueMap entry "
+                                "{1!A} whose open high end cannot be resolved "
+                                "because the next entry {2!A} has no low end",
+                                self._element_str(), valuemap_str,
+                                valuemap_list[i + 1]))
                 next_lo, _, _ = self._values_tuple(
                     i + 1, valuemap_list, values_list, cimtype)
                 hi = next_lo - 1
